@@ -99,7 +99,7 @@ fn dec_case(rng: &mut Rng, ctx: &mut Ctx) {
     let cuts = cut_positions(rng, wire.len(), style, &starts);
     let chunks = split_at_cuts(&wire, &cuts);
     let max_chunk = chunks.iter().map(|c| c.len()).max().unwrap_or(0);
-    let steps = body_steps(rng, chunks, 1, 4, false);
+    let mut steps = body_steps(rng, chunks, 1, 4, false);
     // data-step index by which the 5th prefix byte of the oversized frame is delivered
     let deadline_step = first_over.map(|i| {
         let need = starts[i] + 5;
@@ -116,6 +116,27 @@ fn dec_case(rng: &mut Rng, ctx: &mut Ctx) {
         }
         k
     });
+    // "as soon as its length prefix has been read": the rest of the body has not arrived yet when
+    // the prefix is complete (the body is Pending right after that chunk), so a decoder that
+    // reads ahead whatever is already there is not penalised, one that waits for more data is
+    if let Some(k) = deadline_step {
+        let mut seen = 0;
+        let mut at = None;
+        for (i, s) in steps.iter().enumerate() {
+            if let BStep::Data(_) = s {
+                seen += 1;
+                if seen == k {
+                    at = Some(i);
+                    break;
+                }
+            }
+        }
+        if let Some(i) = at {
+            if !matches!(steps.get(i + 1), Some(BStep::Pending)) {
+                steps.insert(i + 1, BStep::Pending);
+            }
+        }
+    }
     let dir = if request { Dir::Request } else { Dir::Response(200) };
     let expected_payloads: Vec<Vec<u8>> = frames[..accepted]
         .iter()
@@ -142,7 +163,7 @@ fn dec_case(rng: &mut Rng, ctx: &mut Ctx) {
             // promptness: refused once the prefix was readable
             let at = out.data_steps_at[ti.unwrap()];
             if at > deadline_step.unwrap() {
-                ctx.violation("late-rejection", format!("rejected after {} DATA chunks; the prefix was complete after {}", at, deadline_step.unwrap()));
+                ctx.violation("late-rejection", format!("rejected only after {} DATA chunks; the prefix was complete after {} and the body was not ready with more at that point", at, deadline_step.unwrap()));
             }
             ctx.count("dec.rejections_observed");
         }
